@@ -145,41 +145,54 @@ func (c *Check) scanDirections(prune, pruneFrom *ssa.Function) {
 		down bool
 	}{{prune, true}, {pruneFrom, false}} {
 		n := 0
+		// the scan may live in a helper of package profile that the function calls directly
+		scanFns := []*ssa.Function{spec.f}
 		for _, b := range spec.f.Blocks {
 			for _, ins := range b.Instrs {
-				ia, ok := ins.(*ssa.IndexAddr)
-				if !ok {
-					continue
+				if call, ok := ins.(ssa.CallInstruction); ok {
+					if callee := call.Common().StaticCallee(); callee != nil && callee != spec.f && len(callee.Blocks) > 0 && fnPkgPath(callee) == fnPkgPath(spec.f) {
+						scanFns = append(scanFns, callee)
+					}
 				}
-				ld, ok := ia.X.(*ssa.UnOp)
-				if !ok {
-					continue
-				}
-				fa, ok := ld.X.(*ssa.FieldAddr)
-				if !ok {
-					continue
-				}
-				T, F := fieldOf(fa.X.Type(), fa.Field)
-				if !(T == "profile.Location" && F == "Line") && !(T == "profile.Sample" && F == "Location") {
-					continue
-				}
-				if _, isConst := ia.Index.(*ssa.Const); isConst {
-					continue
-				}
-				dir := loopDirection(ia.Index)
-				n++
-				key := fmt.Sprintf("scan:%s:%s.%s", spec.f.Name(), T, F)
-				want := "downwards from the last index (root side first)"
-				if !spec.down {
-					want = "upwards from index 0 (leaf side first)"
-				}
-				switch {
-				case dir == "":
-					c.undecided("C11-R5", key, p.relFile(ia.Pos()), "cannot determine the direction of the scan over "+T+"."+F+" in "+spec.f.Name())
-				case (dir == "down") == spec.down:
-					c.ok("C11-R5", key, p.relFile(ia.Pos()), spec.f.Name()+" scans "+T+"."+F+" "+want, "loop index shape")
-				default:
-					c.bad("C11-R5", key, p.relFile(ia.Pos()), spec.f.Name()+" must scan "+T+"."+F+" "+want+" because it stops at the first match, but the loop runs the other way: with two matching frames the wrong one is chosen")
+			}
+		}
+		for _, sf := range dedupFns(scanFns) {
+			for _, b := range sf.Blocks {
+				for _, ins := range b.Instrs {
+					ia, ok := ins.(*ssa.IndexAddr)
+					if !ok {
+						continue
+					}
+					ld, ok := ia.X.(*ssa.UnOp)
+					if !ok {
+						continue
+					}
+					fa, ok := ld.X.(*ssa.FieldAddr)
+					if !ok {
+						continue
+					}
+					T, F := fieldOf(fa.X.Type(), fa.Field)
+					if !(T == "profile.Location" && F == "Line") && !(T == "profile.Sample" && F == "Location") {
+						continue
+					}
+					if _, isConst := ia.Index.(*ssa.Const); isConst {
+						continue
+					}
+					dir := loopDirection(ia.Index)
+					n++
+					key := fmt.Sprintf("scan:%s:%s.%s", spec.f.Name(), T, F)
+					want := "downwards from the last index (root side first)"
+					if !spec.down {
+						want = "upwards from index 0 (leaf side first)"
+					}
+					switch {
+					case dir == "":
+						c.undecided("C11-R5", key, p.relFile(ia.Pos()), "cannot determine the direction of the scan over "+T+"."+F+" in "+spec.f.Name())
+					case (dir == "down") == spec.down:
+						c.ok("C11-R5", key, p.relFile(ia.Pos()), spec.f.Name()+" scans "+T+"."+F+" "+want, "loop index shape")
+					default:
+						c.bad("C11-R5", key, p.relFile(ia.Pos()), spec.f.Name()+" must scan "+T+"."+F+" "+want+" because it stops at the first match, but the loop runs the other way: with two matching frames the wrong one is chosen")
+					}
 				}
 			}
 		}
